@@ -201,10 +201,12 @@ def repo_state():
 
 # ---------------------------------------------------------------- known findings
 def known_findings(prop):
-    p = V + '/known_findings.json'
-    if not os.path.exists(p):
-        return []
-    return [k for k in json.load(open(p)).get('findings', []) if k.get('property') == prop and k.get('status', 'known') == 'known']
+    """known_findings.json + known_findings.d/*.json (same format); never written at run time."""
+    out = []
+    for p in [V + '/known_findings.json'] + sorted(glob.glob(V + '/known_findings.d/*.json')):
+        if os.path.exists(p):
+            out += [k for k in json.load(open(p)).get('findings', []) if k.get('property') == prop and k.get('status', 'known') == 'known']
+    return out
 
 
 def write_evidence(prop, tier, seed, coverage, wall, violations, assumptions):
